@@ -455,3 +455,110 @@ def gen_stream_cmd(rng, m, db):
         return [b"XDEL", k, bad]
     name = rng.choice([b"XADD", b"XLEN", b"XRANGE", b"XREVRANGE", b"XDEL", b"XTRIM", b"XREAD"])
     return [name] + [k for _ in range(rng.choice([0, 1, 2]))]
+
+
+# --------------------------------------------------------------------------- C16 consumer groups
+GKEYS = [b"s1", b"s2"]
+GROUPS = [b"g1", b"g2", b"g3"]
+CONSUMERS = [b"alice", b"bob", b"carol", b"dave"]
+
+
+def gen_group_cmd(rng, m, db):
+    k = rng.choice(GKEYS) if rng.random() < 0.93 else rng.choice([b"k1", b"nostream"])
+    e = m.get(db, k)
+    st = e.v if e is not None and e.t == "stream" else None
+    ids, last = _stream_ids(m, db, k)
+    groups = list(st.groups) if st else []
+    g = rng.choice(groups) if groups and rng.random() < 0.9 else rng.choice(GROUPS)
+    grp = st.groups.get(g) if st else None
+    cons = rng.choice(CONSUMERS)
+    pend = sorted(grp.pending) if grp else []
+    c = rng.choice(["XADD", "XADD", "XADD", "XDEL", "CREATE", "CREATE", "DESTROY", "SETID", "CREATECONSUMER", "DELCONSUMER",
+                    "READ", "READ", "READ", "READ", "READ", "ACK", "ACK", "ACK", "CLAIM", "CLAIM", "PENDING", "PENDING", "PENDINGX",
+                    "PENDINGX", "INFOG", "INFOC", "XLEN", "XTRIM"])
+    if c == "XADD":
+        if rng.random() < 0.3:
+            return [b"XADD", k, b"*", b"f", b"v%d" % rng.randrange(1000)]
+        nid = (last[0] + rng.choice([0, 1, 2]), 0)
+        if nid <= last:
+            nid = (last[0], last[1] + 1)
+        return [b"XADD", k, _fmt(nid), b"f", b"v%d" % rng.randrange(1000)]
+    if c == "XDEL":
+        # entries that are not pending (claiming / re-reading deleted pending entries is a don't-care)
+        allp = set()
+        if st:
+            for gg in st.groups.values():
+                allp |= set(gg.pending)
+        cands = [i for i in ids if i not in allp]
+        if not cands:
+            return [b"XLEN", k]
+        return [b"XDEL", k, _fmt(rng.choice(cands))]
+    if c == "XTRIM":
+        return [b"XLEN", k]
+    if c == "CREATE":
+        if st is None and rng.random() < 0.5:
+            return [b"XGROUP", b"CREATE", k, g, rng.choice([b"$", b"0", b"0-0"]), b"MKSTREAM"]
+        idb = rng.choice([b"$", b"$", b"0", b"0-0", _fmt(_id_near(rng, ids, last))])
+        a = [b"XGROUP", b"CREATE", k, rng.choice(GROUPS), idb]
+        if rng.random() < 0.2:
+            a.append(b"MKSTREAM")
+        return a
+    if c == "DESTROY":
+        if st is None:
+            return [b"XLEN", k]
+        return [b"XGROUP", b"DESTROY", k, g]
+    if c == "SETID":
+        return [b"XGROUP", b"SETID", k, g, rng.choice([b"$", b"0-0", _fmt(_id_near(rng, ids, last))])]
+    if c == "CREATECONSUMER":
+        return [b"XGROUP", b"CREATECONSUMER", k, g, cons]
+    if c == "DELCONSUMER":
+        return [b"XGROUP", b"DELCONSUMER", k, g, cons]
+    if c == "READ":
+        if st is None:
+            return [b"XLEN", k]       # XREADGROUP on a missing key is not generated (statement silent)
+        a = [b"XREADGROUP", b"GROUP", g, cons]
+        if rng.random() < 0.6:
+            a += [b"COUNT", rng.choice([b"1", b"1", b"2", b"3", b"100"])]
+        if rng.random() < 0.25:
+            a.append(b"NOACK")
+        return a + [b"STREAMS", k, b">"]
+    if c == "ACK":
+        n = rng.randrange(1, 4)
+        pool = pend + pend + ids + [(0, 1), (U64, 0)]
+        if not pool:
+            pool = [(0, 1)]
+        chosen = []
+        for _ in range(n):
+            i = rng.choice(pool)
+            if i not in chosen:
+                chosen.append(i)
+        return [b"XACK", k, g] + [_fmt(i) for i in chosen]
+    if c == "CLAIM":
+        if st is None:
+            return [b"XLEN", k]
+        pool = [i for i in (pend + pend + ids) if i in st.entries] or [(0, 1)]
+        chosen = []
+        for _ in range(rng.randrange(1, 4)):
+            i = rng.choice(pool + [(0, 1)])
+            if i not in chosen:
+                chosen.append(i)
+        a = [b"XCLAIM", k, g, cons, rng.choice([b"0", b"0", b"0", b"1000000000"])] + [_fmt(i) for i in chosen]
+        if rng.random() < 0.3 and all(i in pend for i in chosen):
+            a.append(b"FORCE")
+        if rng.random() < 0.3:
+            a.append(b"JUSTID")
+        return a
+    if c == "PENDING":
+        return [b"XPENDING", k, g]
+    if c == "PENDINGX":
+        lo = b"-" if rng.random() < 0.6 else _fmt(_id_near(rng, pend or ids, last))
+        hi = b"+" if rng.random() < 0.6 else _fmt(_id_near(rng, pend or ids, last))
+        a = [b"XPENDING", k, g, lo, hi, rng.choice([b"1", b"2", b"10", b"100"])]
+        if rng.random() < 0.4:
+            a.append(cons)
+        return a
+    if c == "INFOG":
+        return [b"XINFO", b"GROUPS", k]
+    if c == "INFOC":
+        return [b"XINFO", b"CONSUMERS", k, g]
+    return [b"XLEN", k]
